@@ -59,7 +59,7 @@ const std::vector<Token*> Lexer::makeTokens() {
             }
             continue;
         } else if (currentChar == '(') {
-            if (idx > 0 && tokens.size() > 0 && (*expr)[idx-1] != ' ') {
+            if (idx > 0 && tokens.size() > 0 && (*expr)[idx-1] != ' ' && (*expr)[idx-1] != '\t') {
                 TokenType t = tokens[tokens.size()-1]->type;
                 if (t == TokenType::INPUT) {
                     throw PSC::LexerError(line, column, "Unexpected '('\n'INTPUT' is statement(not a function) used as 'INPUT <var>' where <var> is a variable to store the input");
